@@ -447,7 +447,7 @@ Qed.
 (* ---- call(name, args, kwargs): plain values instead of constant expressions ------------ *)
 Definition to_raw (a : arg) : arg := match a with AConst v => ARaw v | _ => a end.
 Definition raw_kw (kw : kwargs) : kwargs := map (fun kv => (fst kv, to_raw (snd kv))) kw.
-Definition eager_kind (p : param) : bool := match pkind p with KTyped _ _ | KHidden _ => true | _ => false end.
+Definition eager_kind (p : param) : bool := match pkind p with KTyped _ _ | KAnyOf _ _ | KHidden _ => true | _ => false end.
 
 Lemma checked_to_raw p a : eager_kind p = true -> checked p (to_raw a) = checked p a.
 Proof. unfold eager_kind, Resolution.checked. destruct (pkind p); try discriminate; intros _; destruct a; reflexivity. Qed.
